@@ -96,6 +96,10 @@ def gen_scn(r, k, forced=None):
         v["upper"] = v["lower"] + v["w"] * v["nx"]
         v["sigma"] = v["w"] * r.choice([0.5, 1.0, 1.5]) if sig_mode else v["w"] * hw / 2.0
         vars_.append(v)
+    if nd == 3:
+        # (cost of the model's grids: at most one expanding variable in three dimensions)
+        for v in [v for v in vars_ if v["expand"]][1:]:
+            v["expand"] = False
     c = {"id": k, "vars": vars_, "use_grids": use_grids, "sig_mode": sig_mode, "hw": 0.0 if sig_mode else hw,
          "W": r.choice([0.125, 0.5, 1.0]), "freq": f.get("freq", r.choice([1, 1, 2, 2, 3, 4])),
          "keep": f.get("keep", r.random() < 0.5), "wt": f.get("wt", r.random() < 0.4), "bt": r.choice([300.0, 1000.0, 3000.0]),
@@ -111,6 +115,8 @@ def gen_scn(r, k, forced=None):
         if r.random() < 0.4:        # targetDistMinVal: a fraction of the maximum, or 0 = the smallest positive value
             c["eb"]["minval"] = r.choice([0.0, 0.25, 0.001, 0.5])
     c["pmf"] = use_grids and r.random() < f.get("p_pmf", 0.2)
+    if nd == 3 and any(v["expand"] for v in vars_):
+        c["pmf"] = False       # (cost: the free-energy file of a 3-D grid that expands, evaluated bin by bin in the model)
     c["pmf_keep"] = c["pmf"] and r.random() < 0.4
     c["gfreq_explicit"] = use_grids and f.get("gfreq_explicit", r.random() < 0.4)
     c["gfreq"] = f.get("gfreq", r.choice([1, 2, 3, 4, 6])) if c["gfreq_explicit"] else c["freq"]
@@ -135,6 +141,7 @@ def gen_scn(r, k, forced=None):
     can_rebin_grids = use_grids and not c["keep"] and not c["eb"] and nd < 3     # (84^3 bins dumped at every step otherwise)
     rebin_on = False
     p_reconf = f.get("p_reconf", 0.3)
+    keep_now = c["keep"] and use_grids
     events = []
     prev = None
     cur = [dict(lower=v["lower"], upper=v["upper"], nx=v["nx"]) for v in vars_]   # current boundaries of the configuration
@@ -143,8 +150,11 @@ def gen_scn(r, k, forced=None):
             m = r.random()
             if r.random() < p_reconf:
                 # the run that reads the state is configured with other hill parameters than the run that wrote it
-                events.append(("reconf", gen_par(r, c)))
+                events.append(("reconf", gen_par(r, c, keep_now)))
                 rebin_on = False
+                if keep_now and not events[-1][1]["keep"]:
+                    keep_now = False
+                    can_rebin = can_rebin_grids = False     # (rebinning restarts only while the configuration of the first run holds)
             elif m < 0.25 and not rebin_on:
                 # (an instance configured with rebinGrids rebins again, onto its configured boundaries, at every state it
                 # reads: a reload there is a second rebinning, not modelled)
@@ -291,11 +301,12 @@ def rescale(c, k):
     # C03's subject: only histories without restarts are rescaled)
 
 
-def gen_par(r, c):
+def gen_par(r, c, keep=False):
     """hill parameters of a later run: hillWidth or gaussianSigmas, hillWeight, newHillFrequency, gridsUpdateFrequency,
     wellTempered on or off, biasTemperature"""
     q = {"W": r.choice([0.125, 0.5, 1.0, 2.0]), "freq": r.choice([1, 1, 2, 3]), "gfreq": r.choice([1, 1, 2, 3, 4]),
-         "wt": c["wt"] if r.random() < 0.6 else not c["wt"], "bt": r.choice([300.0, 1000.0, 3000.0])}
+         "wt": c["wt"] if r.random() < 0.6 else not c["wt"], "bt": r.choice([300.0, 1000.0, 3000.0]),
+         "keep": keep and r.random() < 0.6}        # keepHills stays on, or is switched off (never on: see keep_witness)
     if r.random() < 0.3:
         q.update({"sig_mode": True, "hw": 0.0, "sigmas": [v["w"] * r.choice([0.25, 0.5, 1.0, 1.5, 2.0]) for v in c["vars"]]})
     else:
@@ -306,7 +317,7 @@ def gen_par(r, c):
 
 def par0(c):
     return {"sig_mode": c["sig_mode"], "hw": c["hw"], "sigmas": [v["sigma"] for v in c["vars"]], "W": c["W"], "freq": c["freq"],
-            "gfreq": c["gfreq"], "wt": c["wt"], "bt": c["bt"]}
+            "gfreq": c["gfreq"], "wt": c["wt"], "bt": c["bt"], "keep": c["keep"]}
 
 
 def step_events(c):
@@ -396,7 +407,7 @@ def config_text(c, geom=None, rebin=False, par=None):
             L.append("  keepFreeEnergyFiles on")
         if c["gfreq_explicit"] or par is not None:
             L.append("  gridsUpdateFrequency %d" % q["gfreq"])
-        if c["keep"]:
+        if q["keep"]:
             L.append("  keepHills on")
         if rebin:
             L.append("  rebinGrids on")
@@ -600,7 +611,8 @@ def model_case(c, xs, dump=True, foreign=None):
             continue
         if e[0] == "reconf":
             p += ["C"] + [V.hexf(t) for t in e[1]["sigmas"]] + [V.hexf(e[1]["hw"]), V.hexf(e[1]["W"]), str(e[1]["freq"]),
-                                                                str(e[1]["gfreq"]), "1" if e[1]["wt"] else "0", V.hexf(e[1]["bt"])]
+                                                                str(e[1]["gfreq"]), "1" if e[1]["wt"] else "0", V.hexf(e[1]["bt"]),
+                                                                "1" if e[1].get("keep", c["keep"]) else "0"]
             continue
         if e[0] == "pmf":
             if not skip_pmf:
@@ -1012,10 +1024,10 @@ def oracle(c, impl, traj):
                     facts["projections"] += 1
                 tab += pend
                 pend = []
-                lingering = not c["keep"]
+                lingering = not cur["keep"]
                 if e[0] == "rebin":
                     facts["rebins"] += 1
-                    if not c["keep"]:
+                    if not cur["keep"]:
                         facts["rebins_from_grids"] += 1
                     prev_geom = [tuple(g) for g in e[1]]
             continue
@@ -1139,7 +1151,7 @@ def oracle(c, impl, traj):
             lingering = False
         # which hills must still be listed explicitly
         if c["use_grids"]:
-            explicit = (tab + pend) if c["keep"] else pend
+            explicit = (tab + pend) if cur["keep"] else pend
         else:
             explicit = tab + pend
         listed = im["hills"]
@@ -1175,7 +1187,7 @@ def oracle(c, impl, traj):
                     any(h[3] != cur["sigmas"] and not any(g[0] == h[0] and g[2] == h[2] for g in im["off"]) and kern(c, x, h) != 0.0 for h in tab):
                 # a hill wider than those of the current run, in range of x, is not among the hills kept for use off the grid
                 sig = "reconf:off-grid-margin-from-configured-width"
-            elif hetero and (not c["use_grids"] or not ins or c["keep"]) and close(im["E"], spec_bias(c, geom, x, asconf[0], asconf[1])[0]):
+            elif hetero and (not c["use_grids"] or not ins or cur["keep"]) and close(im["E"], spec_bias(c, geom, x, asconf[0], asconf[1])[0]):
                 # the energy is what the hills would give if all of them had the widths of the current configuration
                 sig = "widths:hills-evaluated-with-the-configured-width-not-their-own"
             elif c["use_grids"] and not ins and restarted and e[0] == "step" and \
@@ -1222,8 +1234,8 @@ def _var(lower=0.0, nx=8, w=1.0, sigma=1.0, expand=False, **kw):
     return v
 
 
-def _par(sigmas, hw=0.0, W=1.0, freq=1, sig_mode=False, gfreq=1, wt=False, bt=300.0):
-    return {"sig_mode": sig_mode, "hw": hw, "sigmas": list(sigmas), "W": W, "freq": freq, "gfreq": gfreq, "wt": wt, "bt": bt}
+def _par(sigmas, hw=0.0, W=1.0, freq=1, sig_mode=False, gfreq=1, wt=False, bt=300.0, keep=False):
+    return {"sig_mode": sig_mode, "hw": hw, "sigmas": list(sigmas), "W": W, "freq": freq, "gfreq": gfreq, "wt": wt, "bt": bt, "keep": keep}
 
 
 def _cfg(cid, vars_, events, **kw):
@@ -1304,10 +1316,12 @@ def witnesses():
         _cfg("w_reconf_grid_wider", [_var(sigma=0.5)], [[4.5], [4.5], [0.5], ("reconf", _par([2.0], hw=4.0, W=2.0)), [0.5], [-0.25], [5.5], [-1.5]], hw=1.0),
         _cfg("w_reconf_sigmas", [_var(), _var(nx=4, w=2.0, sigma=2.0)], [[3.5, 4.5], [3.5, 4.5], [0.5, 1.0], ("reconf", _par([0.5, 3.0], sig_mode=True)),
                                                                  [0.5, 1.0], [-0.25, 1.0], [0.5, -0.5], [2.5, 3.0]], gfreq_explicit=True, gfreq=2),
-        _cfg("w_reconf_rebin", [_var(nx=12)], [[5.5], [5.5], [6.5], ("reconf", _par([0.5], hw=1.0)), [6.5], [4.5], ("rebin", [(8, 2.5, 10.5)]), [4.5], [2.25], [10.75], [5.0]], keep=True),
+        _cfg("w_reconf_rebin", [_var(nx=12)], [[5.5], [5.5], [6.5], ("reconf", _par([0.5], hw=1.0, keep=True)), [6.5], [4.5], ("rebin", [(8, 2.5, 10.5)]), [4.5], [2.25], [10.75], [5.0]], keep=True),
         # wellTempered switched on (biasTemperature 1000), then off again, and gridsUpdateFrequency 1 -> 3, between runs
         _cfg("w_reconf_wt", [_var()], [[3.5], [3.5], [3.25], ("reconf", _par([1.0], hw=2.0, wt=True, bt=1000.0, gfreq=3)), [3.25], [3.5], [3.0], [-0.25],
                                       ("reconf", _par([1.0], hw=2.0)), [-0.25], [3.5], [3.5]]),
+        # keepHills switched off between runs: the hills of the state stay listed until the next projection, then go
+        _cfg("w_reconf_keep_off", [_var()], [[3.5], [3.5], [0.5], ("reconf", _par([1.0], hw=2.0, keep=False, gfreq=2)), [0.5], [3.25], [-0.25], [3.5], [-0.5]], keep=True),
         _cfg("w_reconf_expand", [_var(expand=True)], [[3.5], [3.5], [1.5], ("reconf", _par([0.5], hw=1.0)), [1.5], [0.25], [-0.25], [-1.5]]),
         # vector variables without grids
         _cfg("w_vec3", [_var(kind=1)], [[[1.0, 0.0, 0.5]], [[1.0, 0.25, 0.5]], [[0.5, 0.25, 0.5]], [[0.5, 0.5, 0.0]]], use_grids=False, wt=True),
@@ -1397,6 +1411,8 @@ def check_one(run, c, impl, mo, txt, rcv, o, traj, mline):
         run.dist("rescaled_2^%d" % c["scale"])
     if c.get("medium") == "mem" and has_restart(c):
         run.dist("state_from_buffer_or_string")
+    if c["keep"] and c["use_grids"] and any(e[0] == "reconf" and not e[1].get("keep", True) for e in c["events"]):
+        run.dist("keepHills_switched_off")
     if any(e[0] == "breload" for e in c["events"]):
         run.dist("bias_level_reload")
     for kk in ("deposits", "projections", "outside_steps", "expansions", "saves", "wt_outside", "wrapped_steps", "restarts", "rebins", "antipodal_steps", "ebmeta_deposits", "reloads", "rebins_from_grids", "bound_checks", "pmf_files", "reconfs", "hetero_steps", "asleep_steps"):
